@@ -65,6 +65,11 @@ class Ctx:
         self.lits: Dict[bytes, Any] = {}  # payload literals seen on this path
         self.known_region: Optional[Callable] = None
         self.assumptions_used: set = set()
+        # quantifier handling by instantiation over index terms (array property fragment)
+        self.keys: List[Any] = []
+        self.key_ids: set = set()
+        self.qfacts: List[Callable] = []
+        self.seq_facts: List[Tuple[Any, Callable]] = []
 
     # ------------------------------------------------------------------ fresh names
     def fresh_name(self, base: str) -> str:
@@ -74,6 +79,25 @@ class Ctx:
 
     def fresh(self, base: str, sort):
         return z3.Const(self.fresh_name(base), sort)
+
+    def add_key(self, term) -> None:
+        """`term` (an Int) may be used as a map / array index: instantiate every universally
+        quantified fact assumed so far for it"""
+        if isinstance(term, int):
+            term = z3.IntVal(term)
+        i = term.get_id()
+        if i in self.key_ids:
+            return
+        self.key_ids.add(i)
+        self.keys.append(term)
+        for f in self.qfacts:
+            self.assume(f(term), "forall instance")
+
+    def assume_forall(self, body: Callable) -> None:
+        """assume (forall k: Int. body(k)) -- by instantiation at all current and future keys"""
+        self.qfacts.append(body)
+        for k in list(self.keys):
+            self.assume(body(k), "forall instance")
 
     # ------------------------------------------------------------------ forking
     def choose(self, n: int, label: str = "", names: Optional[List[str]] = None) -> int:
